@@ -23,7 +23,9 @@ def angle(rng):
     if k == 1:
         return math.pi * rng.choice([0.25, 0.5, 1, 1.5, 2, -0.5, -1, 1 / 3])
     if k == 2:
-        return rng.choice([0.0, -0.0, 1e-9, 2 * math.pi, 4 * math.pi, 1e3])
+        # includes rotations whose small amplitudes are far above the comparison tolerance (1e-9) yet tiny: 1e-4 .. 2e-8
+        return rng.choice([0.0, -0.0, 1e-9, 2 * math.pi, 4 * math.pi, 1e3, 1e-4, -1e-5, 1.9e-6, 1e-6, -3e-7, 1e-7, 4e-8,
+                           math.pi - 1.9e-6, math.pi + 3e-7, -math.pi + 1e-5, 2 * math.pi - 1e-6])
     return rng.uniform(-7, 7)
 
 
